@@ -48,6 +48,23 @@ let nvecel () = let a = nn () in let b = nn () in let c = ngz () in ((a, b), c)
 let nvec () = let k = nint () in rep k nvecel
 let nbasis () = let k = nint () in rep k (fun () -> let a = nn () in let b = nn () in (a, b))
 
+let nidx () = let k = nint () in rep k nnat
+let nentry () =
+  let tag = next () in
+  match tag with
+  | "R" -> let ix = nidx () in let c = ngz () in ERestricted (ix, c)
+  | "S" -> let ix = nidx () in let c = ngz () in ESpinOrb (ix, c)
+  | "DA" -> let p = nnat () in let c = ngz () in EDiagSpatial (p, c)
+  | "DS" -> let p = nnat () in let c = ngz () in EDiagSpin (p, c)
+  | "CD" -> let k = nnat () in let c = ngz () in EDCdiag (k, c)
+  | "CV" -> let i = nnat () in let j = nnat () in let c = ngz () in EDCv (i, j, c)
+  | "T" -> let k = nint () in
+           let ops = rep k (fun () -> let q = nnat () in let d = nbool () in (q, d)) in
+           let c = ngz () in EString (ops, c)
+  | "E0" -> let c = ngz () in EScalar c
+  | _ -> failwith ("entry tag " ^ tag)
+let nentries () = let k = nint () in rep k nentry
+
 let sb b = if b then "1" else "0"
 let sgz (re, im) = string_of_z re ^ " " ^ string_of_z im
 let out = Buffer.create 65536
@@ -110,6 +127,16 @@ let handle () =
      let nt = nint () in let ts = rep nt nterm in
      let v = nvec () in let basis = nbasis () in
      List.iter (fun c -> emit (sgz c)) (m_apply norb ts v basis)
+   | "APPLYH" ->
+     let norb = nnat () in
+     let es = nentries () in
+     let v = nvec () in let basis = nbasis () in
+     List.iter (fun c -> emit (sgz c)) (m_apply_h norb es v basis)
+   | "MATELH" ->
+     let norb = nnat () in
+     let es = nentries () in
+     let x = nvec () in let y = nvec () in
+     emit (sgz (m_matel_h norb es x y))
    | "INNER" ->
      let norb = nnat () in let x = nvec () in let y = nvec () in
      emit (sgz (m_inner norb x y))
